@@ -356,6 +356,9 @@ let parse_oracle toks = List.map (fun s -> match String.split_on_char ',' s with
 
 let cycle_query (toks : string list) (rhs : string) : string =
   match toks with
+  | ["CONV"; at; rt; rn; reln] ->
+    let opt s = if s = "-" then None else Some (tq (qf s)) in
+    if q_stop_decision (opt at) (opt rt) (tq (qf rn)) (tq (qf reln)) then "1" else "0"
   | "TR" :: l :: k :: pre :: post :: ex :: exact :: tol :: fmg :: fk :: iters :: maxit :: "|" :: orc ->
     let (evs, _, _) = model_solve_trace ~l:(ios l) ~k:(ios k) ~pre:(ios pre) ~post:(ios post) ~extrap_mode:(ios ex)
         ~has_exact:(exact = "1") ~tol:(tol = "1") ~fmg:(fmg = "1") ~fk:(ios fk) ~iters:(ios iters) ~maxit:(ios maxit)
@@ -529,6 +532,26 @@ let par_query (toks : string list) (_rhs : string) : string =
   | "PROP" :: _ -> "ok"
   | _ -> "?unknown-query"
 
+(* ---------------- C12 vector kernels ---------------- *)
+let kin_x i = q_of_float (float_of_int ((i * 37 + 11) mod 101 - 50) /. 64.0)
+let kin_y i = q_of_float (float_of_int ((i * 53 + 7) mod 89 - 44) /. 32.0)
+let kernel_cache : (string * int, string) Hashtbl.t = Hashtbl.create 16
+let kernels_query (toks : string list) (_rhs : string) : string =
+  match toks with
+  | ["RED"; name; n; _t; _rep] ->
+    let n = ios n in
+    (match Hashtbl.find_opt kernel_cache (name, n) with
+     | Some v -> v
+     | None ->
+       let xs = List.init n (fun i -> tq (kin_x i)) and ys = List.init n (fun i -> tq (kin_y i)) in
+       let v = (match name with
+           | "dot" -> q_k_dot xs ys | "l1" -> q_k_l1 xs | "l2sq" -> q_k_l2sq xs | "inf" -> q_k_inf ys
+           | _ -> failwith "kernel") in
+       let r = qhex (qt v) in
+       Hashtbl.replace kernel_cache (name, n) r; r)
+  | "PROP" :: _ -> "ok"
+  | _ -> "?unknown-query"
+
 let () =
   let mode = if Array.length Sys.argv > 1 then Sys.argv.(1) else "" in
   let handler = match mode with
@@ -540,6 +563,7 @@ let () =
     | "cycle" -> cycle_query
     | "gridgen" -> gridgen_query
     | "par" -> par_query
+    | "kernels" -> kernels_query
     | _ -> prerr_endline ("unknown mode " ^ mode); exit 2 in
   try
     while true do
